@@ -652,6 +652,13 @@ def m_C06(v):
             conf, sel, claim = [int(x) for x in g["cfg"].split(",")]
             if not (conf < sel <= claim):
                 out.append((i, f"C06 timeline {conf},{sel},{claim} violates confirmation < selection <= claim"))
+            fl = g["flags"]
+            if v.variant not in ("base", "locked") and g["op"] != "none" and fl[3] == "1":
+                out.append((i, f"C06 the additional selection step is marked complete while its operation ({g['op'][:24]}) is still "
+                               f"saved: claims open before every selection step has completed"))
+            has_extra = v.variant not in ("base", "locked")     # the plain variants deploy with the flag set
+            if (fl[2] == "1" and fl[1] != "1") or (has_extra and fl[3] == "1" and fl[2] != "1"):
+                out.append((i, f"C06 selection flags {fl} out of order"))
         if not v.accepted(i):
             continue
         c = v.call[i]
@@ -823,6 +830,26 @@ def m_C14(v):
     for i, k in enumerate(v.kind):
         if v.ops[i][0].startswith("restore") or k == "deploy":
             pre = None
+        if k == "dump" and v.D[i]:
+            g, addrs = v.D[i]
+            cands = ilist(g["payers"]) + ilist(g["nftw"])
+            for u in cands:
+                d = addrs.get(u)
+                if d and (d.get("bl") == "1" or int(d["conf"]) == 0):
+                    out.append((i, f"C14 participant {u} (confirmed {d['conf']}, blacklisted {d.get('bl')}) is still a fee payer / "
+                                   f"candidate of the NFT draw"))
+            ct, cn, ca = [int(x) for x in g["cost"].split(":")]
+            ptok, _price = price_of(g)
+            if cn == 0 and ct != ptok and ct != v.deploy["lp"] and g["op"] == "none":
+                bal = dict((int(a), int(b)) for a, b in (x.split(":") for x in canon.parse_list(g["bal"])))
+                held = bal.get(ct, 0)
+                if g["flags"][3] == "1":
+                    owed = int(g["cnft"]) + ca * len(ilist(g["payers"]))
+                else:
+                    owed = ca * len(cands)
+                if held != owed:
+                    out.append((i, f"C14 fee-token holdings {held} != fees accounted for {owed} "
+                                   f"(payers {g['payers']}, drawn {g['nftw']}, owner proceeds {g['cnft']})"))
         if v.kind[i] != "call":
             continue
         c, R = v.call[i], v.R[i]
@@ -1063,6 +1090,26 @@ def m_C19(v):
     return out
 
 
+def _first_call_dump(v, i, ep):
+    """the dump taken before the FIRST call of the (possibly interrupted and resumed) operation that
+    call i completes; None when some step in between was not observed"""
+    j = i
+    while True:
+        pd = v.prev_dump(j)
+        if pd is not None and pd[0]["op"] == "none":
+            return pd
+        # no dump directly before call j: accept only if the previous committed call is an interrupted
+        # call of the same endpoint
+        k = j - 1
+        while k >= 0 and not (v.kind[k] == "call" and v.committed(k)):
+            if v.kind[k] == "deploy" or v.ops[k][0].startswith("restore"):
+                return None
+            k -= 1
+        if k < 0 or v.call[k]["ep"] != ep or v.R[k].get("ret") != "[1]":
+            return None
+        j = k
+
+
 def parse_ev(item):
     name, rest = item.split("(", 1)
     rest = rest[:-1]
@@ -1094,6 +1141,23 @@ def m_C20(v):
                 want = 1 if ret == "[0]" and not (ep == "distribute" and v.variant != "guarV2") else 0
                 if names.count(comp) != want:
                     out.append((i, f"C20 {ep} returned {ret} and emitted {names.count(comp)} {comp} events"))
+                nd = v.next_dump(i)
+                if want == 1 and names.count(comp) == 1 and nd:
+                    val = [e for e in evs if e[0] == comp][0][2][3]
+                    g1 = nd[0]
+                    if ep == "filter" and val != int(g1["last"]):
+                        out.append((i, f"C20 filterTicketsCompleted reports {val} tickets, {g1['last']} are left after filtering"))
+                    if ep == "select":
+                        marked = len(ilist(g1["status"]))
+                        if val != marked or val != int(g1["nrw"]):
+                            out.append((i, f"C20 selectWinnersCompleted reports {val} winners, {marked} tickets are marked winning "
+                                           f"(winners count {g1['nrw']})"))
+                    if ep == "distribute":
+                        pre = _first_call_dump(v, i, ep)
+                        if pre is not None:
+                            added = len(ilist(g1["status"])) - len(ilist(pre[0]["status"]))
+                            if val != added:
+                                out.append((i, f"C20 distributeGuaranteedTicketsCompleted reports {val} additional winners, {added} were added"))
         if c["ep"] == "confirm":
             if names.count("confirmTickets") != 1:
                 out.append((i, f"C20 accepted confirmation emitted {names}"))
